@@ -254,6 +254,99 @@ func condString(e ast.Expr) string {
 	}
 }
 
+// panicFacts: census of the expressions that can panic at run time in the session code
+// (gateway/, client/, transactions/, util/; non-test files): unchecked type assertions, index
+// and slice expressions, explicit panic() and close() calls, conversions through a nil-able
+// pointer are not recognisable syntactically and are not listed.  One line per site:
+//   PANIC <file> <func> <kind> <expression text>
+// Position-free; a site that appears, disappears or changes its text changes the line set.
+func panicFacts(repo, dir string) {
+	fset := token.NewFileSet()
+	matches, _ := filepath.Glob(filepath.Join(repo, dir, "*.go"))
+	sort.Strings(matches)
+	for _, path := range matches {
+		if strings.HasSuffix(path, "_test.go") || strings.HasSuffix(path, "verif_hooks.go") {
+			continue
+		}
+		rel, _ := filepath.Rel(repo, path)
+		f, err := parser.ParseFile(fset, path, nil, 0)
+		if err != nil {
+			emit("ERROR parse %s %v", rel, err)
+			continue
+		}
+		for _, d := range f.Decls {
+			fd, ok := d.(*ast.FuncDecl)
+			if !ok || fd.Body == nil {
+				continue
+			}
+			_, typ := recvInfo(fd)
+			fn := fd.Name.Name
+			if typ != "" {
+				fn = typ + "." + fn
+			}
+			// comma-ok assertions and type switches do not panic
+			safe := map[ast.Node]bool{}
+			ast.Inspect(fd.Body, func(n ast.Node) bool {
+				switch x := n.(type) {
+				case *ast.AssignStmt:
+					if len(x.Lhs) == 2 && len(x.Rhs) == 1 {
+						if ta, ok := x.Rhs[0].(*ast.TypeAssertExpr); ok {
+							safe[ta] = true
+						}
+						if ie, ok := x.Rhs[0].(*ast.IndexExpr); ok { // v, ok := m[k]: a map lookup
+							safe[ie] = true
+						}
+					}
+				case *ast.ValueSpec:
+					if len(x.Names) == 2 && len(x.Values) == 1 {
+						if ta, ok := x.Values[0].(*ast.TypeAssertExpr); ok {
+							safe[ta] = true
+						}
+					}
+				case *ast.TypeSwitchStmt:
+					ast.Inspect(x.Assign, func(m ast.Node) bool {
+						if ta, ok := m.(*ast.TypeAssertExpr); ok {
+							safe[ta] = true
+						}
+						return true
+					})
+				}
+				return true
+			})
+			ast.Inspect(fd.Body, func(n ast.Node) bool {
+				switch x := n.(type) {
+				case *ast.TypeAssertExpr:
+					if !safe[x] && x.Type != nil {
+						emit("PANIC %s %s assert %s.(%s)", rel, fn, condString(x.X), condString(x.Type))
+					}
+				case *ast.IndexExpr:
+					if !safe[x] {
+						emit("PANIC %s %s index %s[%s]", rel, fn, condString(x.X), condString(x.Index))
+					}
+				case *ast.SliceExpr:
+					lo, hi := "", ""
+					if x.Low != nil {
+						lo = condString(x.Low)
+					}
+					if x.High != nil {
+						hi = condString(x.High)
+					}
+					emit("PANIC %s %s slice %s[%s:%s]", rel, fn, condString(x.X), lo, hi)
+				case *ast.CallExpr:
+					if id, ok := x.Fun.(*ast.Ident); ok && (id.Name == "panic" || id.Name == "close") {
+						var a []string
+						for _, y := range x.Args {
+							a = append(a, condString(y))
+						}
+						emit("PANIC %s %s %s %s", rel, fn, id.Name, strings.Join(a, ","))
+					}
+				}
+				return true
+			})
+		}
+	}
+}
+
 func main() {
 	repo := flag.String("repo", "/repo", "repository root")
 	flag.Parse()
@@ -264,6 +357,9 @@ func main() {
 	lockFacts(*repo, "transactions/timed_transaction.go", map[string]bool{"TimedTransaction": true})
 	for _, t := range []string{"bisquitt", "bisquitt-pub", "bisquitt-sub"} {
 		cliFacts(*repo, "cmd/"+t+"/actions.go")
+	}
+	for _, d := range []string{"gateway", "client", "transactions", "util"} {
+		panicFacts(*repo, d)
 	}
 	sort.Strings(out)
 	for _, l := range out {
